@@ -1642,6 +1642,10 @@ SUMMARIES = {
     'std::num::<impl isize>::is_positive': int_sign_test('Gt'),
     'std::result::Result::<T, E>::and': result_and,
     'std::ptr::eq': ptr_eq,
+    'std::time::Duration::as_secs': lambda e, s_, f, a, fn, site: T('dur_as_secs', deref(e, s_, ptr_term(a[0]))),
+    'std::time::Duration::subsec_nanos': lambda e, s_, f, a, fn, site: T('dur_subsec_nanos', deref(e, s_, ptr_term(a[0]))),
+    'std::f64::<impl f64>::is_sign_negative': lambda e, s_, f, a, fn, site: T('sign_neg', a[0]),
+    'std::f64::<impl f64>::is_sign_positive': lambda e, s_, f, a, fn, site: T('Not', T('sign_neg', a[0])),
     'std::cmp::impls::<impl std::cmp::Ord for usize>::cmp': int_cmp,
     'std::cmp::impls::<impl std::cmp::Ord for isize>::cmp': int_cmp,
     'std::cmp::impls::<impl std::cmp::Ord for u8>::cmp': int_cmp,
